@@ -850,8 +850,10 @@ def strat_c20(draw):
         # a data column called what polars (or pandera) would call a helper column: the selection of rows must not
         # depend on the labels of the data
         old = draw(st.sampled_from([t["name"] for t in case["table"]["columns"]]))
-        rename_label(case, old, draw(st.sampled_from(RESERVED_LOOKING)))
-        case["reserved_looking_label"] = True
+        new = draw(st.sampled_from(RESERVED_LOOKING))
+        if new not in [t["name"] for t in case["table"]["columns"]] + [c["name"] for c in case["spec"]["columns"]]:
+            rename_label(case, old, new)
+            case["reserved_looking_label"] = True
     opts = {}
     w = draw(st.integers(0, 2))
     if w in (0, 2):
@@ -902,6 +904,26 @@ def strat_c11(draw):
 
 
 # ------------------------------------------------------------------------------ known findings
+
+
+def _has_check_output_column(case):
+    return any(t["name"] == "check_output" for t in case.get("table", {}).get("columns", []))
+
+
+def _check_output_finding(pid):
+    """polars: a data column called 'check_output' collides with the helper column of that fixed name that pandera adds
+    for every check (one root cause; it shows as DuplicateError text in reports, leaked DuplicateError, lost failure
+    cases, rows that drop_invalid_rows cannot attribute).  State-change discrepancies are never attributed to it."""
+
+    @known.finding(pid + "/polars-data-column-named-check_output")
+    def _kf(family, case, disc):
+        return family.startswith("polars") and _has_check_output_column(case) and "changed" not in disc.kind
+
+    return _kf
+
+
+for _pid in ("C02", "C03", "C06", "C11", "C20"):
+    _check_output_finding(_pid)
 
 NON_ROW_REASONS = {"COLUMN_NOT_IN_DATAFRAME", "COLUMN_NOT_IN_SCHEMA", "COLUMN_NOT_ORDERED", "WRONG_DATATYPE",
                    "ADD_MISSING_COLUMN_NO_DEFAULT", "DATATYPE_COERCION"}
